@@ -2763,7 +2763,7 @@ func (dsc *dataStoreCommand) intersectWithLimitWorker(limit int, keyNames ...str
 	}
 
 	d = newRedisDict()
-	if len(sets) < 2 {
+	if len(sets) == 0 {
 		return
 	}
 
